@@ -1,6 +1,7 @@
 package main
 
 import (
+	"math/bits"
 	"fmt"
 	"time"
 	"go/constant"
@@ -990,14 +991,9 @@ func (in *Interp) load(fr *frame, p Ptr) value {
 
 func (in *Interp) loadSym(p Ptr) value {
 	n := len(p.arr)
-	v := p.arr[n-1]
-	w := p.idx.w
-	for i := n - 2; i >= 0; i-- {
-		nv, ok := in.iteVal(in.ts.Eq(p.idx, in.ts.Const(w, uint64(i))), p.arr[i], v)
-		if !ok {
-			in.unsupported("symbolic index over non-scalar elements")
-		}
-		v = nv
+	v, ok := in.muxIndex(p.idx, n, func(i int) value { return p.arr[i] })
+	if !ok {
+		in.unsupported("symbolic index over non-scalar elements")
 	}
 	for i := range p.arr {
 		in.sch.noteRead(&p.arr[i])
@@ -1120,11 +1116,44 @@ func (in *Interp) strIndex(s Str, i64 *Term) *Term {
 		return s.b[i64.val]
 	}
 	n := len(s.b)
-	v := s.b[n-1]
-	for i := n - 2; i >= 0; i-- {
-		v = in.ts.Ite(in.ts.Eq(i64, in.ts.Const(64, uint64(i))), s.b[i], v)
+	v, _ := in.muxIndex(i64, n, func(i int) value { return s.b[i] })
+	return v.(*Term)
+}
+
+// muxIndex selects element idx of n (the caller has already established idx < n on this path): a
+// balanced multiplexer over the low bits of idx — one-bit selectors and shared subtrees instead of
+// n full-width equality tests.
+func (in *Interp) muxIndex(idx *Term, n int, elem func(i int) value) (value, bool) {
+	ts := in.ts
+	k := bits.Len(uint(n - 1))
+	ok := true
+	var mux func(bit, base int) value
+	mux = func(bit, base int) value {
+		if base >= n {
+			return elem(n - 1)
+		}
+		if bit < 0 {
+			return elem(base)
+		}
+		t0 := mux(bit-1, base)
+		if base|1<<uint(bit) >= n {
+			return t0
+		}
+		t1 := mux(bit-1, base|1<<uint(bit))
+		if a, isT := t0.(*Term); isT {
+			if b, isT := t1.(*Term); isT && a == b {
+				return t0
+			}
+		}
+		sel := ts.Eq(ts.Extract(idx, bit, bit), ts.Const(1, 1))
+		v, o := in.iteVal(sel, t1, t0)
+		if !o {
+			ok = false
+			return t0
+		}
+		return v
 	}
-	return v
+	return mux(k-1, 0), ok
 }
 
 func (in *Interp) makeSlice(fr *frame, ins *ssa.MakeSlice) value {
